@@ -128,7 +128,7 @@ def spread_case(draw):
     fg = draw(gen.freq_grid(4, 12))
     return dict(dirs=dirs, n=n, arr=arr, dm=dm, dspr=[round(draw(st.floats(5.0, 75.0)), 3) for _ in range(m)], fg=fg, func=draw(st.sampled_from(["cartwright", "cartwright", "asymmetric", "cartwright_under90"])),
                 dpm=[round(draw(st.floats(1.0, 359.0)), 3) for _ in range(m)], dpspr=[round(draw(st.floats(5.0, 60.0)), 3) for _ in range(m)], hs=[round(draw(st.floats(0.2, 8.0)), 3) for _ in range(m)],
-                roll=draw(st.integers(0, n - 1)))
+                roll=draw(st.integers(0, n - 1)), store=draw(st.sampled_from(["rolled", "rolled", "interleaved", "shuffled"])), perm=draw(st.permutations(list(range(n)))))
 
 
 def ref_moments(dirs, dm, dspr, under_90=False):
@@ -152,6 +152,11 @@ def check_spread(case, ctx):
     from wavespectra.construct import construct_partition, direction as D, frequency as F
 
     dirs = case["dirs"][case["roll"]:] + case["dirs"][: case["roll"]] if case["func"] != "asymmetric" else case["dirs"]
+    if case["func"] != "asymmetric" and case.get("store") == "interleaved":
+        dirs = case["dirs"][0::2] + case["dirs"][1::2]  # two sector sets concatenated without sorting
+    elif case["func"] != "asymmetric" and case.get("store") == "shuffled":
+        dirs = [case["dirs"][i] for i in case["perm"]]
+    ctx.label("stored=" + (case.get("store", "rolled") if case["func"] != "asymmetric" else "asc"))
     n = case["n"]
     dd = 360.0 / n
     f = np.array(case["fg"]["f"])
